@@ -195,6 +195,46 @@ def run(case):
                         V.append(viol("C11.count", "%s: count_features_of_type(%r) = %r, iterated %d" % (
                             where, ft, c.get("out"), len([f for f in feats if f["cols"][2] == ft])), kind="count"))
                         return False
+            # several result generators alive on the one handle, advanced in a seeded interleaving:
+            # each must still yield exactly what it yields when consumed alone
+            qs = qrng.sample(case["queries"], min(len(case["queries"]), qrng.choice([2, 2, 3])))
+            if qrng.random() < 0.5:
+                qs = qs + [dict(qs[0])]  # two iterations of the very same query
+                if qs[0].get("strand"):
+                    qs[-1]["strand"] = {"+": "-", "-": "+", ".": "+"}[qs[0]["strand"]]  # same shape, other argument
+            reqs = []
+            for q in qs:
+                kw = {}
+                args = []
+                if q["m"] == "features_of_type":
+                    args = [q.get("featuretype")]
+                elif q.get("featuretype") is not None:
+                    kw["featuretype"] = q["featuretype"]
+                if q.get("strand"):
+                    kw["strand"] = q["strand"]
+                if q.get("order_by") is not None:
+                    kw["order_by"] = q["order_by"]
+                    if q.get("reverse"):
+                        kw["reverse"] = True
+                reqs.append({"m": q["m"], "args": args, "kw": kw})
+            alone = []
+            for rq in reqs:
+                r = call(node, dict(rq, op="read", h="h"))
+                alone.append(r["out"] if r["ok"] else None)
+            if all(a is not None for a in alone):
+                sched = [qrng.randrange(len(reqs)) for _ in range(qrng.randint(2, 30))]
+                r = call(node, {"op": "interleave", "h": "h", "queries": reqs, "schedule": sched})
+                if not r["ok"]:
+                    V.append(viol("C11.interleaved", "%s: interleaved iteration raised %s: %s" % (where, r["exc"], r["msg"]),
+                                  kind="interleave_failed", exc=r["exc"]))
+                    return False
+                for rq, a, b in zip(reqs, alone, r["outs"]):
+                    if a != b:
+                        V.append(viol("C11.interleaved", "%s: %s%r yields %r when another iteration is alive on the handle (schedule %r), "
+                                      "%r alone" % (where, rq["m"], rq["kw"], b, sched, a), kind="interleaved_differs"))
+                        return False
+                if len(set(sched)) > 1 and any(len(a) > 1 for a in alone):
+                    probes["generators_interleaved"] = 1
             c = call(node, {"op": "read", "h": "h", "m": "count_features_of_type"})
             if not c["ok"] or c["out"] != len(feats):
                 V.append(viol("C11.count", "%s: count_features_of_type() = %r, iterated %d" % (where, c.get("out"), len(feats)), kind="count_all"))
